@@ -127,6 +127,9 @@ def _local(case, interleave):
     out = []
     for s in schemas:
         if interleave:
+            from d42.generation import Generator, RegexGenerator
+            rnd = Random()
+            Generator(rnd, RegexGenerator(rnd, alphabet={"digits": "01", "letters": "xy", "word": "z"}, max_repeat=2))
             validate(schema.list(schema.int), [1, "x"])
             repr(s)
             try:
